@@ -1,5 +1,6 @@
 (* C05 — results do not depend on worker count or completion order. *)
 From Verif Require Import Prelude Schedule ScheduleP ScheduleRed ScheduleRedP PairCount RoundRobin RoundRobinP.
+From Verif Require MemoHistory MemoHistoryP.
 From Coq Require Import Permutation.
 Open Scope nat_scope.
 
@@ -109,3 +110,111 @@ Example C05_concrete :
   consume_cells true 2 [r01; r00] (pair_key 2 0 0) = consume_cells true 2 [r00; r01] (pair_key 2 0 0) /\
   consume_cells true 2 [r01; r00] (pair_key 2 0 0) = Some [[(4 * (1 # 2))%Q]].
 Proof. vm_compute. split; reflexivity. Qed.
+
+(* ---------------- a long-lived parent with a HISTORY of measurements against fresh worker processes ---------------- *)
+(* Model/MemoHistory.v: objects (configurations, catalogs, linkages) have a value and live at an identity drawn from an
+   allocator that may hand the identity of a discarded object out again; a measurement is finish (prep value) args; a
+   process may remember prep.  One worker = the parent, which carries what it remembers through the whole history;
+   several workers = processes that receive copies and remember nothing. *)
+Module MH := MemoHistory.
+Module MHP := MemoHistoryP.
+
+(* remembering by VALUE is invisible: after any history - well-formed or not, whatever identities the allocator picks -
+   every measurement is the function of the value the statement names ... *)
+Theorem C05_value_memo_history_free : forall (V P A R : Type) (prep : V -> P) (finish : P -> A -> R) (veqb : V -> V -> bool),
+  (forall a b : V, veqb a b = true -> a = b) ->
+  forall es : list (MH.event V A),
+  MH.run finish (MH.value_memo prep veqb) nil nil es = MH.spec (MHP.compute prep finish) nil es.
+Proof. exact MHP.value_memo_history_free. Qed.
+Print Assumptions C05_value_memo_history_free.
+
+(* ... so the parent after the history es answers a new object of value v exactly as a worker without history does *)
+Theorem C05_value_memo_worker_count_free : forall (V P A R : Type) (prep : V -> P) (finish : P -> A -> R) (veqb : V -> V -> bool),
+  (forall a b : V, veqb a b = true -> a = b) ->
+  forall (es : list (MH.event V A)) (i j : nat) (v : V) (a : A),
+  MH.after_history finish (MH.value_memo prep veqb) es i v a
+  = MH.spec (MHP.compute prep finish) nil es ++ MH.in_fresh_worker finish (MH.value_memo prep veqb) j v a.
+Proof. exact MHP.value_memo_worker_count_free. Qed.
+Print Assumptions C05_value_memo_worker_count_free.
+
+(* the same for a process that remembers nothing (the code as it is) *)
+Theorem C05_no_memo_worker_count_free : forall (V P A R : Type) (prep : V -> P) (finish : P -> A -> R)
+  (es : list (MH.event V A)) (i j : nat) (v : V) (a : A),
+  MH.after_history finish (MH.no_memo prep) es i v a
+  = MH.spec (MHP.compute prep finish) nil es ++ MH.in_fresh_worker finish (MH.no_memo prep) j v a.
+Proof. exact MHP.no_memo_worker_count_free. Qed.
+Print Assumptions C05_no_memo_worker_count_free.
+
+(* remembering by IDENTITY is invisible when the entry goes away with the object (weak keys, a finalizer, an attribute of
+   the object itself), for every history the allocator can produce - reuse of identities included ... *)
+Theorem C05_id_memo_invalidated_history_free : forall (V P A R : Type) (prep : V -> P) (finish : P -> A -> R) (es : list (MH.event V A)),
+  MH.wf nil es = true ->
+  MH.run finish (MH.id_memo_inv prep) nil nil es = MH.spec (MHP.compute prep finish) nil es.
+Proof. exact MHP.id_memo_invalidated_history_free. Qed.
+Print Assumptions C05_id_memo_invalidated_history_free.
+
+Theorem C05_id_memo_invalidated_worker_count_free : forall (V P A R : Type) (prep : V -> P) (finish : P -> A -> R)
+  (es : list (MH.event V A)) (i j : nat) (v : V) (a : A),
+  MH.wf nil (es ++ [MH.Alloc i v; MH.Use i a]) = true ->
+  MH.after_history finish (MH.id_memo_inv prep) es i v a
+  = MH.spec (MHP.compute prep finish) nil es ++ MH.in_fresh_worker finish (MH.id_memo_inv prep) j v a.
+Proof. exact MHP.id_memo_invalidated_worker_count_free. Qed.
+Print Assumptions C05_id_memo_invalidated_worker_count_free.
+
+(* ... and, when the entries are never invalidated, only as long as the allocator never hands an identity out twice
+   (which is what a test that creates one configuration, or a worker that unpickles one copy, sees) ... *)
+Theorem C05_id_memo_without_reuse_history_free : forall (V P A R : Type) (prep : V -> P) (finish : P -> A -> R) (es : list (MH.event V A)),
+  NoDup (MH.alloc_ids es) -> MH.wf nil es = true ->
+  MH.run finish (MH.id_memo prep) nil nil es = MH.spec (MHP.compute prep finish) nil es.
+Proof. exact MHP.id_memo_without_reuse_history_free. Qed.
+Print Assumptions C05_id_memo_without_reuse_history_free.
+
+(* ... while ONE discarded object whose identity is handed out again refutes it: create a, measure, discard, create b at
+   the identity of a, measure - the second measurement is answered with a's derived data ... *)
+Theorem C05_id_memo_reuse_refuted : forall (V P A R : Type) (prep : V -> P) (finish : P -> A -> R) (a b : V) (x : A),
+  MHP.compute prep finish a x <> MHP.compute prep finish b x ->
+  MH.wf nil (MHP.reuse_history a b x) = true /\
+  MH.has_dup (MH.alloc_ids (MHP.reuse_history a b x)) = true /\
+  MH.run finish (MH.id_memo prep) nil nil (MHP.reuse_history a b x) = [MHP.compute prep finish a x; MHP.compute prep finish a x] /\
+  MH.spec (MHP.compute prep finish) nil (MHP.reuse_history a b x) = [MHP.compute prep finish a x; MHP.compute prep finish b x] /\
+  MH.run finish (MH.id_memo prep) nil nil (MHP.reuse_history a b x) <> MH.spec (MHP.compute prep finish) nil (MHP.reuse_history a b x).
+Proof. exact MHP.id_memo_reuse_refuted. Qed.
+Print Assumptions C05_id_memo_reuse_refuted.
+
+(* ... and the parent then differs from every fresh worker: the result depends on the worker count *)
+Theorem C05_id_memo_worker_count_refuted : forall (V P A R : Type) (prep : V -> P) (finish : P -> A -> R) (a b : V) (x : A),
+  MHP.compute prep finish a x <> MHP.compute prep finish b x ->
+  exists (es : list (MH.event V A)) (i : nat),
+    MH.wf nil (es ++ [MH.Alloc i b; MH.Use i x]) = true /\
+    forall j : nat, MH.after_history finish (MH.id_memo prep) es i b x
+                    <> MH.spec (MHP.compute prep finish) nil es ++ MH.in_fresh_worker finish (MH.id_memo prep) j b x.
+Proof. exact MHP.id_memo_worker_count_refuted. Qed.
+Print Assumptions C05_id_memo_worker_count_refuted.
+
+(* the checker run on the histories the harness logs (identities = addresses reported by the interpreter) accepts only
+   histories of this allocator model whose results are a function of (value, arguments) *)
+Theorem C05_history_checker_sound : forall (es : list (MH.event nat nat)) (outs : list nat),
+  MH.c05_history_case es outs = 0 ->
+  MH.wf nil es = true /\ exists f : nat -> nat -> nat, outs = MH.spec f nil es.
+Proof. exact MHP.c05_history_case_sound. Qed.
+Print Assumptions C05_history_checker_sound.
+
+(* non-vacuity: scales 100 and 500 (prep = the angle at a bin centre, here *3; finish adds the catalog argument).  The
+   identity-keyed memo answers the second configuration with the first one's angle; the value-keyed memo, the
+   invalidated one and no memo at all give the statement; and the parent under the identity-keyed memo (301) differs
+   from a fresh worker (1501) *)
+Example C05_memo_history_concrete :
+  let prep := fun v : nat => 3 * v in
+  let finish := fun (p a : nat) => p + a in
+  let es := [MH.Alloc 4 100; MH.Use 4 1; MH.Free 4; MH.Alloc 4 500; MH.Use 4 1] in
+  MH.wf nil es = true /\ MH.has_dup (MH.alloc_ids es) = true /\
+  MH.spec (MHP.compute prep finish) nil es = [301; 1501] /\
+  MH.run finish (MH.no_memo prep) tt nil es = [301; 1501] /\
+  MH.run finish (MH.value_memo prep Nat.eqb) nil nil es = [301; 1501] /\
+  MH.run finish (MH.id_memo_inv prep) nil nil es = [301; 1501] /\
+  MH.run finish (MH.id_memo prep) nil nil es = [301; 301] /\
+  MH.after_history finish (MH.id_memo prep) [MH.Alloc 4 100; MH.Use 4 1; MH.Free 4] 4 500 1 = [301; 301] /\
+  MH.in_fresh_worker finish (MH.id_memo prep) 9 500 1 = [1501] /\
+  MH.c05_history_case [MH.Alloc 4 100; MH.Use 4 1; MH.Free 4; MH.Alloc 4 500; MH.Use 4 1] [301; 1501] = 0 /\
+  MH.c05_history_case [MH.Alloc 4 100; MH.Use 4 1; MH.Free 4; MH.Alloc 4 500; MH.Use 4 1; MH.Alloc 5 500; MH.Use 5 1] [301; 301; 1501] = 3.
+Proof. vm_compute. repeat split; reflexivity. Qed.
